@@ -382,6 +382,9 @@ func (g *gen) shape(p *Plan) {
 				// workflow branches carry no data: the targets take their data through
 				// data-only dependencies
 				for _, b := range bt {
+					if t.PlanBool(35) {
+						continue // a branch target that takes no data from the branching node
+					}
 					p.Edges = append(p.Edges, &Edge{From: key(a), To: key(b), Ctrl: false, Data: true, Map: MapToField, ForBranch: true})
 				}
 			}
